@@ -1767,7 +1767,7 @@ class sptensor:
         keep_shape = shapeArray[keep_modes]
         new_shape = parse_shape(new_shape)
 
-        if prod(new_shape) != prod(old_shape):
+        if prod(new_shape) != prod(old_shape) or any(n < 0 for n in new_shape):
             assert False, "Reshape must maintain tensor size"
 
         if self.subs.size == 0:
